@@ -126,7 +126,9 @@ class SQLExecutor(object):
             **kwargs (dict, unused):
                 Unused keyword arguments.
         """
-        self.finish_transaction()
+        # If we're exiting because of an exception, the transaction in
+        # progress must be rolled back, not committed.
+        self.finish_transaction(*args[:3])
 
         self._cursor.close()
         self._cursor = None
@@ -154,13 +156,28 @@ class SQLExecutor(object):
         if not self._latest_transaction:
             self.new_transaction()
 
-    def finish_transaction(self):
-        """Finish and commit a transaction."""
+    def finish_transaction(self, exc_type=None, exc_value=None,
+                           traceback=None):
+        """Finish a transaction.
+
+        The transaction is committed, unless exception information is
+        provided, in which case it's rolled back.
+
+        Args:
+            exc_type (type, optional):
+                The type of the exception being handled, if any.
+
+            exc_value (Exception, optional):
+                The exception being handled, if any.
+
+            traceback (traceback, optional):
+                The traceback for the exception being handled, if any.
+        """
         transaction = self._latest_transaction
 
         if transaction:
-            transaction.__exit__(None, None, None)
             self._latest_transaction = None
+            transaction.__exit__(exc_type, exc_value, traceback)
 
     def run_sql(self, sql, capture=False, execute=False):
         """Run (execute and/or capture) a list of SQL statements.
